@@ -30,7 +30,8 @@ def plan(tier, seed):
     specs = []
     for i in range(n):
         rnd = random.Random('%s/C01/plan/%d' % (seed, i))
-        kind = 'soup' if rnd.random() < 0.06 else 'file'
+        r_ = rnd.random()
+        kind = 'soup' if r_ < 0.06 else 'callprefix' if r_ < 0.14 else 'file'
         specs.append({'id': 'c01-%d' % i, 'kind': kind,
                       'file_index': rnd.randrange(len(files)),
                       'nmut': rnd.choice([0, 1, 1, 1, 2, 2, 3, 4]), 'npos': npos,
@@ -66,8 +67,65 @@ def build_text(spec):
     return text, near, rnd
 
 
+ARG_TEMPLATES = ['(', '(a.b =', '(x[0]=', '(g()=', '(a, -b=', '(*', '(**', '(a=', '(a=1, *', '(lambda: ', '((',
+                 '([x for', '(a if', '(a, b=c.d', '("s" %', '(a)(', '(a).b(', '(a[', '(a:=', '(a=1, b', '(1, 2, ',
+                 '(a, *b, c=', '(**k, ', '(a.', '(a, b.c(', '(not ', '(-', '(a == ', '(a.b ==', '(f"{', '(a,)(',
+                 '(yield', '(await ', '(x for x in', '(a=b=', '(=', '(,', '(a,,', '(a=,', '(*, ', '(a: int', '(a -> ']
+
+
+def run_callprefix(spec):
+    """Code being typed inside call parentheses: every prefix of a line that contains a call,
+    cut after each character from the opening bracket on (the file above the line is kept);
+    get_signatures / complete / infer at the end of each prefix, Signature attributes swept."""
+    import os
+    import re
+    from vf.driver import digest
+    rnd = random.Random(spec['seed'])
+    files = corpus.files()
+    text = corpus.fragment(corpus.read(files[spec['file_index'] % len(files)]), rnd, 80)
+    lines = text.split('\n')
+    cands = [i for i, l in enumerate(lines) if re.search(r'\w\(.*[=,.]', l) and len(l) < 140]
+    rec = apimon.Recorder()
+    case_dir = os.path.join(os.environ.get('VERIF_RUN_DIR', '/var/tmp'), 'cases')
+    os.makedirs(case_dir, exist_ok=True)
+    tried = 0
+    for li in rnd.sample(cands, min(len(cands), 3)):
+        line = lines[li]
+        start = line.index('(') + 1
+        cuts = list(range(start, len(line) + 1))
+        if len(cuts) > 30:
+            cuts = sorted(rnd.sample(cuts, 30))
+        for k, cut in enumerate(cuts):
+            pre = '\n'.join(lines[:li] + [line[:cut]])
+            path = os.path.join(case_dir, '%s-%d-%d.py' % (spec['id'], li, k))
+            tried += 1
+            sweepwl.run_text(rec, pre, path, [(li + 1, cut)],
+                             methods=['get_signatures', 'complete', 'infer', 'goto'],
+                             witness={'case': spec['id'], 'typed': line[:cut][-60:]}, deep=False)
+    # hostile argument text typed into a call of a callable defined in the text
+    names = re.findall(r'^(?:def|class) (\w+)', text, re.M)[:40]
+    for nm in rnd.sample(names, min(len(names), 2)):
+        for k, tpl in enumerate(ARG_TEMPLATES):
+            typed = nm + tpl
+            pre = text.rstrip('\n') + '\n' + typed
+            path = os.path.join(case_dir, '%s-t-%s-%d.py' % (spec['id'], nm, k))
+            tried += 1
+            ln = pre.count('\n') + 1
+            sweepwl.run_text(rec, pre, path, [(ln, len(typed))],
+                             methods=['get_signatures', 'complete', 'infer', 'goto'],
+                             witness={'case': spec['id'], 'typed': typed}, deep=False)
+    vio = [v for v in rec.violations if v['key'].startswith(('exc:', 'novalueerror:', 'budget:'))]
+    for v in vio:
+        v['witness']['text_tail'] = v['witness'].get('typed')
+    return {'id': spec['id'], 'digest': digest([spec['seed'], tried]),
+            'nontrivial': rec.events.get('c01:ok', 0) >= 20, 'events': rec.events, 'violations': vio,
+            'sample': {'case': spec['id'], 'kind': 'callprefix', 'prefixes_tried': tried}}
+
+
 def run(spec, deciding_prefixes=('exc:', 'novalueerror:', 'budget:'), methods=None,
         monitors=(apimon.position_monitor,)):
+    if spec.get('kind') == 'callprefix':
+        return run_callprefix(spec)
     import os
     from vf.driver import digest
     text, near, rnd = build_text(spec)
